@@ -14,7 +14,7 @@ package electreIII
 //@ spec elImportance(l model.BiasListener, p *model.DecisionMakingParams, id string) real = (*p.MethodParameters.(electreIIIParams).Criteria)[id].K
 
 //@ func (*ElectreIIIBiasLIstener).OnCriteriaRemoved
-//@   property C07 C15
+//@   property C07 C15 C20 C05 C06
 //@   nopanic
 //@   refines model.BiasListener.OnCriteriaRemoved with validParams=elValid, coversId=elCovers
 //@   ensures [restricted] forall k int :: 0 <= k && k < len(*leftCriteria) ==>
@@ -24,7 +24,7 @@ package electreIII
 //@   loop 1 invariant [kept] forall k int :: 0 <= k && k < iter ==> (*leftCriteria)[k].Id in resCriteria && resCriteria[(*leftCriteria)[k].Id] == (*params.(electreIIIParams).Criteria)[(*leftCriteria)[k].Id]
 
 //@ func (*ElectreIIIBiasLIstener).OnCriterionAdded
-//@   property C07 C18
+//@   property C07 C18 C20 C05 C06
 //@   nopanic
 //@   fnparam generator ensures 0.0 <= result && result < 1.0
 //@   refines model.BiasListener.OnCriterionAdded with validParams=elValid, coversId=elCovers, accepts=elAccepts, acceptsAny=elAcceptsAny
@@ -34,7 +34,7 @@ package electreIII
 //@             && (*result.(electreIIIParams).Criteria)[criterion.Id].V == (*params.(electreIIIParams).Criteria)[referenceCriterion.Id].V
 
 //@ func (*ElectreIIIBiasLIstener).Merge
-//@   property C07 C18
+//@   property C07 C18 C20 C05 C06
 //@   refines model.BiasListener.Merge with validParams=elValid, coversId=elCovers, accepts=elAccepts, acceptsAny=elAcceptsAny
 //@   ensures [distillation_kept] result.(electreIIIParams).DistillationFun == params.(electreIIIParams).DistillationFun
 //@   ensures [values] forall q string :: (q in *params.(electreIIIParams).Criteria ==> (*result.(electreIIIParams).Criteria)[q] == (*params.(electreIIIParams).Criteria)[q])
@@ -101,6 +101,13 @@ package electreIII
 //@ func evaluateAlternativesPair
 //@   property C05 C06
 //@   ensures [unit_diagonal] i == j ==> result == 1.0
+//@   returnhint [off_diagonal_is_the_credibility] i != j ==> result == eleRes.D
+
+// the pair's result: C the global concordance, D the credibility derived from it by the veto product
+//@ func electreIIICredibility
+//@   property C05 C06
+//@   ensures [fresh] fresh(result)
+//@   returnhint [concordance_then_credibility] result.C == c && result.D == d
 
 // ---- distillation helpers and the final ranking (C01, C05, C06)
 
@@ -189,17 +196,23 @@ package electreIII
 
 // rank / distillate are not under contract (recursion through closures); their callers must hand them a distillation function
 // that is non-negative on [0,1] - the precondition of the termination argument
+// ascRank / descRank: the two distillations as (abstract) functions of the credibility matrix and the distillation function given
+//@ spec ascRank(m *AlternativesMatrix, f *utils.LinearFunctionParameters) *[]int
+//@ spec descRank(m *AlternativesMatrix, f *utils.LinearFunctionParameters) *[]int
 //@ func RankAscending
 //@   trusted
 //@   requires [nonneg_distillation] distillationFun != nil && nonnegOnUnit(*distillationFun)
+//@   ensures result == ascRank(matrix, distillationFun)
 //@ func RankDescending
 //@   trusted
 //@   requires [nonneg_distillation] distillationFun != nil && nonnegOnUnit(*distillationFun)
+//@   ensures result == descRank(matrix, distillationFun)
 
 //@ func ElectreIII
 //@   property C20 C05 C01 C06
 //@   requires [nonneg_distillation] distillationFun != nil && nonnegOnUnit(*distillationFun)
 //@   ensures [ranking] result != nil
+//@   returnhint [both_distillations_of_the_same_matrix_with_the_configured_function] ascending == ascRank(matrix, distillationFun) && descending == descRank(matrix, distillationFun)
 
 //@ func (*ElectreIIIPreferenceFunc).Evaluate
 //@   property C20 C05 C06
